@@ -6,6 +6,7 @@ import KyupyVerif.Model.Kahn
 import KyupyVerif.Model.Net
 import KyupyVerif.Model.SimOps
 import KyupyVerif.Gen.Tables
+import KyupyVerif.Drv.Registry
 /-! Line protocol driver: one request per line on stdin, one answer per line on stdout.
 Only core-Lean model files are imported, so this links as a stand-alone executable. -/
 open KV
@@ -176,7 +177,8 @@ def step (st : DState) (line : String) : DState × String :=
         | some true => "1" | some false => "0" | none => "-"
       let nxt := (List.range n).map fun j => if a j then "1" else "0"
       (st, s!"{"".intercalate cap}{if ok then "" else "!"} {"".intercalate nxt}")
-  | _ => (st, "bad-op")
+  | cmd :: args => (st, (KV.Drv.tryExt cmd args).getD "bad-op")
+  | [] => (st, "bad-op")
 
 partial def loop (h : IO.FS.Stream) (out : IO.FS.Stream) (st : DState) : IO Unit := do
   let line ← h.getLine
